@@ -134,8 +134,18 @@ func checkC12(r *Run) int {
 		file  *dsl.File
 		roots []string
 		exts  []ext
+		cfg   func(c *dsl.Config)
 	}
-	worlds := []world{{"f5", base, space.F5Roots, extList}, {"names", c12NamesFile(false), c12NamesRoots, extList[:1]}, {"names-reversed", c12NamesFile(true), c12NamesRoots, extList[:1]}}
+	worlds := []world{{"f5", base, space.F5Roots, extList, nil}, {"names", c12NamesFile(false), c12NamesRoots, extList[:1], nil}, {"names-reversed", c12NamesFile(true), c12NamesRoots, extList[:1], nil}}
+	// the proto file lives in a sub-directory and has a go_package; the struct package is addressed by a
+	// short default_package_name resolved through import_path_overrides, the target package is separate
+	layout := space.F5File()
+	layout.Pkg, layout.Name, layout.GoPackage = "f5", "api/v1/f5.proto", "example.com/acme/api/types;types"
+	worlds = append(worlds, world{"f5-subdir-layout", layout, space.F5Roots, extList[:1], func(c *dsl.Config) {
+		c.DefaultPkg = "types"
+		c.ImportPathOverrides = map[string]string{"types": "example.com/acme/api/types"}
+		c.TargetPkg = "tfschema"
+	}})
 	for _, wd := range worlds {
 		base := wd.file
 		for _, sub := range subsets(wd.roots) {
@@ -144,9 +154,12 @@ func checkC12(r *Run) int {
 					f, extra := e.apply(base)
 					cfg := space.BaseConfig(sub...)
 					cfg.Sort = srt
+					if wd.cfg != nil {
+						wd.cfg(cfg)
+					}
 					execs = append(execs, &gExec{Label: fmt.Sprintf("%s|types=%s|sort=%v|ext=%s", wd.name, strings.Join(sub, "+"), srt, e.name), FD: f.Descriptor(), Extra: extra, YAML: cfg.YAML(nil, nil)})
 					metas = append(metas, meta{sub, srt, e.name, wd.name})
-					if extra == nil && (r.Tier == "thorough" || ei == 0 || len(sub) == 4) && !(e.name == "extra-file-imported") && (wd.name == "f5" || len(sub) >= 4 || r.Tier == "thorough") {
+					if extra == nil && (r.Tier == "thorough" || ei == 0 || len(sub) == 4) && !(e.name == "extra-file-imported") && (wd.name == "f5" || len(sub) >= 4 || r.Tier == "thorough") && wd.cfg == nil {
 						cf := *f
 						compile = append(compile, &space.Case{Label: "C12/" + execs[len(execs)-1].Label, Family: "F5", Tags: map[string]string{"class": "multiroot", "card": "mixed", "vt": "multiroot", "pos": "deep"}, File: &cf, Cfg: cfg})
 					}
